@@ -612,6 +612,86 @@ fn gen_textstr(r: &mut Rng) -> TextStr {
     }
 }
 
+/// A type whose strings borrow from the input where they can (`Cow<'de, str>`, map with `&'de str`-like keys as
+/// `Cow`): the deserializer then hands out input slices, its own buffer or owned strings depending on
+/// whether a value had to be unescaped. It is compared through its owned twin `BorrowTwin`.
+#[derive(Deserialize, Debug)]
+#[serde(rename = "s_borrow")]
+pub struct Borrowing<'a> {
+    #[serde(rename = "@a_c", borrow)]
+    pub a: std::borrow::Cow<'a, str>,
+    #[serde(rename = "@a_list", borrow, default)]
+    pub al: Vec<std::borrow::Cow<'a, str>>,
+    #[serde(borrow)]
+    pub t_c: std::borrow::Cow<'a, str>,
+    #[serde(borrow, default)]
+    pub t_items: Vec<std::borrow::Cow<'a, str>>,
+    #[serde(borrow)]
+    pub k_map: BTreeMap<std::borrow::Cow<'a, str>, std::borrow::Cow<'a, str>>,
+    #[serde(borrow)]
+    pub x_t: BorrowingText<'a>,
+}
+#[derive(Deserialize, Debug)]
+pub struct BorrowingText<'a> {
+    #[serde(rename = "$text", borrow, default)]
+    pub t: std::borrow::Cow<'a, str>,
+}
+#[derive(Serialize, Deserialize, Debug, PartialEq, Clone)]
+#[serde(rename = "s_borrow")]
+pub struct BorrowTwin {
+    #[serde(rename = "@a_c")]
+    pub a: String,
+    #[serde(rename = "@a_list", default)]
+    pub al: Vec<String>,
+    pub t_c: String,
+    #[serde(default)]
+    pub t_items: Vec<String>,
+    pub k_map: BTreeMap<String, String>,
+    pub x_t: BorrowTwinText,
+}
+#[derive(Serialize, Deserialize, Debug, PartialEq, Clone)]
+pub struct BorrowTwinText {
+    #[serde(rename = "$text", default)]
+    pub t: String,
+}
+impl<'a> Borrowing<'a> {
+    fn twin(self) -> BorrowTwin {
+        BorrowTwin {
+            a: self.a.into_owned(),
+            al: self.al.into_iter().map(|c| c.into_owned()).collect(),
+            t_c: self.t_c.into_owned(),
+            t_items: self.t_items.into_iter().map(|c| c.into_owned()).collect(),
+            k_map: self.k_map.into_iter().map(|(k, v)| (k.into_owned(), v.into_owned())).collect(),
+            x_t: BorrowTwinText { t: self.x_t.t.into_owned() },
+        }
+    }
+}
+fn gen_borrowtwin(r: &mut Rng) -> BorrowTwin {
+    BorrowTwin {
+        a: gen_string(r, Pos::Attr),
+        al: (0..gen_len(r).min(4)).map(|_| gen_nonempty(r, Pos::Item)).collect(),
+        t_c: gen_string(r, Pos::Text),
+        t_items: (0..gen_len(r).min(4)).map(|_| gen_string(r, Pos::Text)).collect(),
+        k_map: gen_map(r),
+        x_t: BorrowTwinText { t: gen_string(r, Pos::Text) },
+    }
+}
+/// from_str borrows; the reader entry point needs an owned type
+fn de_str_borrowing(s: &str, limit: Option<usize>) -> DeResult {
+    let v: Result<Borrowing, DeError> = match limit {
+        None => quick_xml::de::from_str(s),
+        Some(l) => {
+            let mut de = Deserializer::from_str(s);
+            #[cfg(feature = "ovl")]
+            de.event_buffer_size(NonZeroUsize::new(l));
+            #[cfg(not(feature = "ovl"))]
+            let _ = l;
+            Borrowing::deserialize(&mut de)
+        }
+    };
+    v.map(|b| Box::new(b.twin()) as Box<dyn Val>).map_err(de_err)
+}
+
 /// T06 — $text number
 #[derive(Serialize, Deserialize, Debug, PartialEq, Clone)]
 #[serde(rename = "x_num")]
@@ -1431,6 +1511,13 @@ pub fn family() -> Vec<TypeOps> {
         ops!(OptTextEl, "OptTextEl", gen = gen_opttextel, rows = &["named-children-and-optional-$text", "list:elements-unit"]),
         ops!(Protocols, "Protocols", gen = gen_protocols, rows = &["serializer-protocol:collect_str", "serializer-protocol:serialize_key+serialize_value"]),
         ops!(NamePrefix, "NamePrefix", gen = gen_nameprefix, rows = &["names-that-are-prefixes-of-one-another"]),
+        TypeOps {
+            name: "Borrowing",
+            gen: Some(|r: &mut Rng| -> Box<dyn Val> { Box::new(gen_borrowtwin(r)) }),
+            de_str: de_str_borrowing,
+            de_reader: de_reader_impl::<BorrowTwin>,
+            rows: &["strings-borrowed-from-the-input"],
+        },
     ]
 }
 
